@@ -3,6 +3,7 @@ import CogentModel.Model.PhyloTree
 import CogentModel.Model.PhyloNewick
 import CogentModel.Model.PhyloTreeDist
 import CogentModel.Model.PhyloMidpoint
+import CogentModel.Model.PhyloNewickStr
 import CogentModel.Spec.PhyloSplits
 open CogentModel CogentModel.Phylo
 
@@ -109,6 +110,26 @@ def handle (cmd : String) (j : J) : Except String J :=
     pure (J.obj [("rf", natRes (treeDistanceRF a b)), ("rrf", natRes (rootedRF a b)),
                  ("urf", natRes (unrootedRF a b)),
                  ("spec_urf", J.num (symDiffBip T (clusters a) (clusters b)))])
+  | "lex" => do
+    let text ← (← j.get "text").toStr
+    pure (J.arr ((lex text.toList).map fun r => J.str (String.ofList r.str)))
+  | "tokenise" => do
+    let text ← (← j.get "text").toStr
+    pure (match tokenise text.toList with
+      | none => errJ .valueError
+      | some ts => J.arr (ts.map fun t => match t with
+          | .lab s => J.arr [J.str (String.ofList s)]
+          | .pun c => J.str (String.ofList [c])))
+  | "parsestr" => do
+    let text ← (← j.get "text").toStr
+    let tbl ← (← j.get "nums").toListOf (J.toPairOf J.toStr J.toRat)
+    let rd : List Char → Option Rat := fun s => (tbl.find? (·.1 = String.ofList s)).map (·.2)
+    pure (match parseString rd text.toList with
+      | some r => treeToJ r
+      | none => errJ .valueError)
+  | "printstr" => do
+    let t ← treeOfJ (← j.get "tree")
+    pure (J.str (String.ofList (newickStr t)))
   | _ => throw s!"unknown command {cmd}"
 
 def main : IO Unit := driverLoop handle
